@@ -356,7 +356,10 @@ type vC06Script struct {
 	ns      []string
 	ex      []string
 	fill    int // bytes of TXT filler appended to the answer (0: none)
-	optMode int // 0 none, 1 re-attach the request's OPT, 2 own OPT, 3 own OPT followed by a second own OPT
+	optMode int // 0 none, 1 re-attach the request's OPT, 2 own OPT, 3 own OPT followed by a second own OPT,
+	// 4: a handler NO middleware of the tree resembles — it appends a private-use option to the request's
+	// own OPT, attaches it, and attaches an OPT of its own after it (the witness that premise
+	// req_opt_clean of no_foreign_option_reflected is necessary; judged without that one clause)
 	optKind []int
 	optSeed int64
 	ownSize uint16
@@ -483,6 +486,19 @@ func (vC06Stub) ServeDNS(ctx context.Context, ch *middleware.Chain) {
 			if !sc.undecoded {
 				alias = o
 			}
+		}
+	case 4:
+		if o := req.IsEdns0(); o != nil {
+			o.Option = append(o.Option, &dns.EDNS0_LOCAL{Code: 65001, Data: []byte{0xC0, 0x06}})
+			m.Extra = append(m.Extra, o)
+			if !sc.undecoded {
+				alias = o
+			}
+			o2 := new(dns.OPT)
+			o2.Hdr.Name = "."
+			o2.Hdr.Rrtype = dns.TypeOPT
+			o2.SetUDPSize(sc.ownSize)
+			m.Extra = append(m.Extra, o2)
 		}
 	case 2, 3:
 		n := 1
@@ -828,6 +844,11 @@ func vC06GenScript(r *rand.Rand) *vC06Script {
 		sc.optPos = 1
 	}
 	sc.wireEDE = -1
+	if r.Intn(60) == 0 {
+		sc.optMode = 4
+		sc.optKind = nil
+		return sc
+	}
 	if r.Intn(4) == 0 {
 		// a cache hit served from stored bytes: no OPT of its own, maybe a stored EDE
 		sc.wire = true
@@ -1089,6 +1110,10 @@ func TestVerifC06Edns(t *testing.T) {
 		}
 		fkey := ""
 		relax := 0
+		if sc.optMode == 4 {
+			k += "-reqoptjunk"
+			relax = 1
+		}
 		nontrivial := !(called && !gq.hasOpt && sc.optMode == 0 && len(sc.ns) == 0)
 		rec := map[string]any{
 			"k": k, "coq": coq, "nontrivial": nontrivial,
@@ -1103,6 +1128,10 @@ func TestVerifC06Edns(t *testing.T) {
 		}
 		if fkey != "" {
 			rec["fkey"] = fkey
+		}
+		if relax != 0 {
+			rec["coq"] = fmt.Sprintf("CaseRelax %d (%s)", relax, coq)
+			relax = 0
 		}
 		b, _ := json.Marshal(rec)
 		f.Write(append(b, '\n'))
